@@ -1156,8 +1156,9 @@ Error JitAllocator::query(Out<Span> out, void* rx) const noexcept {
   // The first bit representing the allocated area and its size.
   uint32_t area_start = uint32_t(offset >> pool->granularity_log2);
 
+  // The initial padding is marked as used, but it's not an allocation.
   bool is_used = Support::bit_vector_get_bit(block->_used_bit_vector, area_start);
-  if (ASMJIT_UNLIKELY(!is_used)) {
+  if (ASMJIT_UNLIKELY(Support::bool_or(!is_used, area_start < block->initial_area_start()))) {
     return make_error(Error::kInvalidArgument);
   }
 
